@@ -57,6 +57,9 @@ func (u *UseCase) DeleteFiles(ctx context.Context, files []model.File) error {
 
 func (u *UseCase) deleteFile(ctx context.Context, file model.File) error {
 	verifhook.At("clean.file")
+	model.ContentGuard.Lock()
+	defer model.ContentGuard.Unlock()
+
 	cf, err := u.cfRepo.Get(ctx, file.ContentId)
 	if errors.Is(err, fs_db.ErrNotFound) {
 		return nil
